@@ -15,6 +15,7 @@
 #include <iostream>
 #include <array>
 #include <deque>
+#include <locale>
 #include <memory>
 #include <stdexcept>
 #include <sstream>
@@ -541,11 +542,27 @@ std::string run_grey(reader &r)
 #include "exec_more.inc"
 
 #ifndef EXEC_NO_MAIN
+// a line starting with `~` is executed in a program whose GLOBAL C++ locale groups digits (1.000) and uses a decimal comma,
+// as after std::locale::global(std::locale("de_DE")): every stream the library might create picks that locale up.  What
+// the library transmits and decodes is bytes and numbers of a protocol, not text for people - nothing may change.
+struct grouping_numpunct : std::numpunct<char>
+{
+    char do_thousands_sep() const override { return '.'; }
+    char do_decimal_point() const override { return ','; }
+    std::string do_grouping() const override { return "\3"; }
+};
+
 int main()
 {
     std::ios::sync_with_stdio(false);
     std::string line;
+    std::locale const classic = std::locale::classic();
+    std::locale const grouped(classic, new grouping_numpunct);
     while (std::getline(std::cin, line)) {
+        if (line.empty()) { std::cout << "\n"; continue; }
+        bool const localised = line[0] == '~';
+        if (localised) { line.erase(0, 1); std::locale::global(grouped); }
+        struct restore { std::locale const &c; bool on; ~restore() { if (on) std::locale::global(c); } } restore_locale{classic, localised};
         if (line.empty()) { std::cout << "\n"; continue; }
         char kind = line[0];
         std::string rest = line.size() > 1 ? line.substr(1) : std::string();
